@@ -274,27 +274,49 @@ def withinBudget (cfg : Cfg) (h : History) : Bool :=
   decide (dropCount h < cfg.retxMax) &&
     decide (2 * maxHold h < (cfg.retxMax - dropCount h) * cfg.retxThreshold)
 
-/-- C06 liveness oracle for a `live=1` case that ended quiescent within the fault budget:
-    nobody saw an error, everything written was read, no writer is parked, every closed direction
-    delivered EOF. -/
+/-- Did an application give up a handle (drop a stream / listener, cancel a connect)? The liveness
+    oracle only speaks about histories in which both applications keep their handles. -/
+def appClosed (h : History) : Bool :=
+  h.any fun e => match e.1 with
+    | .sdrop _ | .ldrop _ | .ccancel _ => true
+    | _ => false
+
+/-- C06 liveness oracle for a history that ended quiescent within the fault budget and in which no
+    application gave up a handle: nobody saw an error; no connect is still pending; no writer is
+    parked (its last `write` returned pending); no reader is parked (its last `read` returned
+    pending) while the peer has written bytes it has not received, or has closed its write side
+    without EOF having been seen. -/
 def c06Liveness (cfg : Cfg) (h : History) : Option String :=
   if !withinBudget cfg h then none
   else if trailingQuiet h < cfg.retxThreshold + 1 then none
+  else if appClosed h then none
   else
     let a := appRun h
+    let pendingConnect := (h.foldl (fun (acc : List Nat) e =>
+      match e.1, e.2 with
+      | .connect _ c _ _, [.pending] => acc ++ [c]
+      | .cpoll c _, [.pending] => if acc.contains c then acc else acc ++ [c]
+      | .cpoll c _, _ => acc.filter (· != c)
+      | _, _ => acc) []).isEmpty
     if !a.connectErrs.isEmpty then some "connect failed although loss stayed within the retransmit budget"
-    else if a.recs.length < 2 then some "connection never completed (connect or accept parked forever)"
+    else if !pendingConnect then some "connect parked forever"
     else
       (a.recs.findSome? fun r =>
         if !r.errs.isEmpty then some "an operation failed although loss stayed within the retransmit budget"
         else if r.lastWritePending then some "writer parked forever"
         else match r.mate with
-          | none => some "stream without a peer handle (accept never returned it)"
+          | none => some "connected stream whose peer was never handed out by accept"
           | some m =>
             let mr := a.recs.getD m default
-            if r.readBytes.length != mr.written.length then some "written bytes never delivered"
-            else if mr.shut && !r.sawEof then some "EOF never delivered"
+            if r.lastRead == some .pending then
+              if r.readBytes.length != mr.written.length then some "reader parked although written bytes are outstanding"
+              else if mr.shut && !r.sawEof then some "reader parked although the peer closed: EOF never delivered"
+              else none
             else none)
+
+/-- The history the *model* produces for an op list (used to state liveness about the model). -/
+def modelHistory (cfg : Cfg) (hosts : Nat) (ops : List Op) : History :=
+  ops.zip ((Sys.init cfg hosts).run ops).2
 
 /-! ## C13 — accept-once, index consistency, reclamation, no stale entries -/
 
